@@ -71,7 +71,19 @@ def replay(job):
             log.append(dict(kind="cmd", name=e[1], old="", new=""))
         else:
             log.append(dict(kind="hook", name=e[1], old=e[2], new=e[3]))
-    return dict(ev="steps", case=conf, exit=r.exit, changed=before != after, log=log, old=OLD, new="1.2.4", exc=r.exc or "",
+    # what the env-guarded hooks inside bumpver recorded, as step names (the stateful trace spec consumes them with the actions of Pipeline.tla)
+    hooked = []
+    for e in r.events:
+        if e.get("ev") == "vcs.cmd":
+            nm = {"fetch": "fetch", "ls_tags": "lstags", "ls_tags_branch": "lstags", "status": "status", "add_path": "add", "commit": "commit", "tag": "tag", "tag_light": "tag_light",
+                  "push": "push", "push_tag": "push_tag"}.get(e.get("name"))
+            if nm:
+                hooked.append(nm)
+        elif e.get("ev") == "hook.start":
+            hooked.append("prehook" if "pre_hook" in (e.get("path") or "") else "posthook")
+        elif e.get("ev") == "rewrite.write":
+            hooked.append("write")
+    return dict(ev="steps", case=conf, exit=r.exit, changed=before != after, log=log, old=OLD, new="1.2.4", exc=r.exc or "", hooked=hooked,
                 dbg="%s: bumpver %s" % ({k: v for k, v in conf.items() if v not in (False, "unset", "absent", "none")}, " ".join(args)))
 
 
@@ -121,16 +133,26 @@ def run(ctx):
                                       allow=False, tagmsg=True, remote=True, dry=False, fetch=not no_fetch, failat="none", ignore=ig, unique=un))
     for _ in range(ctx.pick(1500, 100000)):
         confs.append(random_conf(rng, ["git", "git", "hg"]))
-    events = drive.pmap(replay, [(c, i) for i, c in enumerate(confs)], hooks=False, chunksize=10)
+    events = drive.pmap(replay, [(c, i) for i, c in enumerate(confs)], hooks=True, chunksize=10)
     for i, e in enumerate(events):
         e["id"] = i + 1
-    fails, st = tlc.validate_events("Trace_Update", [{k: v for k, v in e.items() if k not in ("exc", "dbg")} for e in events], name="C10")
+    fails, st = tlc.validate_events("Trace_Update", [{k: v for k, v in e.items() if k not in ("exc", "dbg", "hooked")} for e in events], name="C10")
     ctx.add_trace(st)
     by_id = {e["id"]: e for e in events}
     for f in fails:
         e = by_id[f["id"]]
         ctx.violation(dict(clause=f["clause"], vcs=e["case"]["vcs"], failat=e["case"]["failat"], dry=e["case"]["dry"]),
                       case=dict(what=e["dbg"], exit=e["exit"], log=[(x["kind"], x["name"]) for x in e["log"]], exc=e["exc"][:200]), expected=f["detail"])
+    # stateful validation: the hook events of every run are consumed by the actions of Pipeline.tla (order of the file rewrite relative to
+    # the dirty check and the pre-commit hook is only visible here)
+    runs = [dict(conf=e["case"], exit0=e["exit"] == 0, changed=e["changed"], events=e["hooked"]) for e in events]
+    rejected, st2 = tlc.validate_runs("Trace_Pipeline", runs, name="C10s")
+    ctx.add_trace(st2)
+    ctx.count("runs_followed_by_the_step_machine", len(runs) - len(rejected))
+    for idx, line in rejected:
+        e = events[idx]
+        ctx.violation(dict(clause="pipeline:trace-rejected", vcs=e["case"]["vcs"], failat=e["case"]["failat"], dry=e["case"]["dry"]),
+                      case=dict(what=e["dbg"], hook_events=e["hooked"], stuck_at_event=line, exit=e["exit"]))
     for t, p, exit_, changed, cmds in drive.pmap(_invalid_cfg, [(True, False), (False, True), (True, True)], hooks=False):
         if exit_ == 0 or changed or any(c in ("add_path", "commit", "tag", "tag_light", "push", "push_tag", "fetch") for c in cmds):
             ctx.violation(dict(clause="config-contradiction-not-rejected-first", tag=t, push=p), case=dict(exit=exit_, changed=changed, cmds=cmds))
